@@ -10,7 +10,9 @@ import (
 
 const (
 	massBalanceLimit = 1e-3
-	convergenceLimit = 1e-8
+	// 0 disables FindRoot's exit on convergence in x: at low flows the whole bracket is narrower than any fixed
+	// flow increment while the mass balance residual is still far above massBalanceLimit
+	convergenceLimit = 0.0
 	maxIterations    = 20
 )
 
